@@ -14,6 +14,7 @@ visited atoms lie outside it); mutagen's own reader (`MP4Tags.load` / `__parse_d
 import MutagenModel.Proofs.Container.Mp4New
 import MutagenModel.Proofs.Mp4Tags
 import MutagenModel.Proofs.Container.Mp4Reader
+import MutagenModel.Proofs.Container.Mp4Link
 set_option linter.unusedVariables false
 namespace Mutagen.C01
 open Mutagen Mutagen.Mp4C
@@ -188,5 +189,109 @@ example :
             [([0x78, 0x78, 0x78, 0x78], [Mp4R.itemBody [⟨0, 13, [7]⟩]])]) ∧
     (Mp4R.loadTags [([0x74, 0x72, 0x6b, 0x6e], 29, Mp4R.itemBody [⟨0, 0, [0, 0, 0, 3, 0]⟩])] {}).isNone = true := by
   decide +kernel
+
+/-! ### end to end: save on a layout, then mutagen's own load
+
+Proofs/Container/Mp4Link.lean: on ANY rendered well-formed tree, `atoms.path(moov, udta, meta, ilst)` on the parsed atoms
+ends at the `ilst` the tree has there, and `atom.read` of its children returns their bodies (`tagsPure_tree`). -/
+
+/-- the link: what `MP4Tags.load` reads (`tagsPure`: name and `atom.read` payload of every child of
+moov.udta.meta.ilst) from the file a save leaves is the `(name, body)` of the item atoms that were saved, in order; the
+atoms are those of `Atoms(fileobj)` on that file.  (`hno`: no offset table to patch; `mp4_tags_read_from_saved_file_patched`
+otherwise.  `hdep`: the nesting of the result is what the reader accepts — the items may nest.) -/
+theorem mp4_tags_read_from_saved_file (mem : Bool) (L : Layout) (h : L.OK) (items : List Atom) (pad : PadChoice)
+    (hfit : wfList (L.saved items pad).top) (hno : L.tableSteps items pad = []) (hdep : depthList (L.saved items pad).top ≤ 65) :
+    ∃ g, saveTags mem L.render (ilstData items) pad = (none, g) ∧ Mp4C.parse g = .ok (annotList 0 (L.saved items pad).top) ∧
+      tagsPure g (annotList 0 (L.saved items pad).top) = .ok (some (items.map fun c => (c.name, c.body))) :=
+  saved_tagsPure mem L h items pad hfit hno hdep
+
+/-- the same for a save that patches offset tables; `hil` (the patched tree still has the saved `ilst` at the end of the
+path) and `hdep` are decidable, true for every layout, and checked rather than proved -/
+theorem mp4_tags_read_from_saved_file_patched (mem : Bool) (L : Layout) (h : L.OK) (items : List Atom) (pad : PadChoice)
+    (hfit : wfList (L.saved items pad).top) (htab : L.TablesOK items pad)
+    (hil : treePath (L.savedPatched items pad) ilstPath = some (Atom.node nIlst false [] items))
+    (hdep : depthList (L.savedPatched items pad) ≤ 65) :
+    ∃ g, saveTags mem L.render (ilstData items) pad = (none, g) ∧ Mp4C.parse g = .ok (annotList 0 (L.savedPatched items pad)) ∧
+      tagsPure g (annotList 0 (L.savedPatched items pad)) = .ok (some (items.map fun c => (c.name, c.body))) :=
+  saved_tagsPure_patched mem L h items pad hfit htab hil hdep
+
+/-- C01 (a), end to end: on an OK layout, save item atoms the codec renders (`RItem`: text, integer and pair items, each
+`OK`), in any order `ris`, with any padding choice; then `Atoms(fileobj)` on the result, `MP4Tags.load`'s reads and mutagen's
+own reader (`Mp4R.loadTags`) give every value back under its name — the dictionary is built in the order of the file, and
+nothing lands in `_failed_atoms`.  If `MP4(fileobj)` loads the file at all (the stream info may refuse it), these are its tags.
+(Kinds proved: text, integers, pairs.  `covr`, freeform `----`, bools and `gnre` → `©gen`: the reader model is tied to /repo
+on them — `run_reader` — and C01b has their codec round trips; not composed here.) -/
+theorem mp4_save_then_load_own_reader (mem : Bool) (L : Layout) (h : L.OK) (ris : List RItem) (hris : ∀ r ∈ ris, r.OK)
+    (pad : PadChoice) (hfit : wfList (L.saved (ris.map RItem.atom) pad).top)
+    (hno : L.tableSteps (ris.map RItem.atom) pad = []) (hdep : depthList (L.saved (ris.map RItem.atom) pad).top ≤ 65) :
+    ∃ g atoms cs, saveTags mem L.render (ilstData (ris.map RItem.atom)) pad = (none, g) ∧ Mp4C.parse g = .ok atoms ∧
+      tagsPure g atoms = .ok (some cs) ∧ (∀ r, loadPure g = .ok r → r.tags = some cs) ∧
+      Mp4R.loadTags (cs.map fun c => (c.1, c.2.length + 8, c.2)) {} =
+        some { items := ris.foldl (fun its r => Mp4R.addMulti r.name r.val its) [], failed := [] } := by
+  obtain ⟨g, h1, h2, h3⟩ := saved_tagsPure mem L h (ris.map RItem.atom) pad hfit hno hdep
+  refine ⟨g, _, _, h1, h2, h3, fun r hr => loadPure_tags g _ _ h2 h3 r hr, ?_⟩
+  have := loadTags_ritems ris {} hris
+  simp only [List.map_map] at this ⊢
+  exact this
+
+/-- … for items with pairwise different names the dictionary read back is exactly the list of `(name, value)` written -/
+theorem mp4_read_back_dict (ris : List RItem) (hn : (ris.map RItem.name).Nodup) :
+    ris.foldl (fun its r => Mp4R.addMulti r.name r.val its) [] = ris.map fun r => (r.name, r.val) := by
+  have := foldl_addMulti_distinct ris [] hn (fun kv hkv => by cases hkv)
+  simpa using this
+
+/-! ### the order of the items -/
+
+/-- `MP4Tags.save` writes, as the children of `ilst`, the rendered items in the order of `_item_sort_key` — a stable sort
+of the dict's items by (position of `key[:4]` in the `order` list, `len(repr(value))`, `repr(value)`) — followed by the
+atoms kept in `_failed_atoms` (unsorted).  The sorted list is a permutation of the dict's items; items whose sort keys are
+equal keep the dict's order, so the bytes can depend on the insertion order in that case only.  (`repr` is a parameter of
+the model; the order is tied to /repo: `run_order`.) -/
+theorem mp4_items_written_sorted (items : List Mp4R.SItem) (t : Mp4R.Tags) :
+    Mp4R.ilstChildren items t = (Mp4R.sortItems items).map (·.rendered) ++ Mp4R.failedValues t ∧
+      (Mp4R.sortItems items).Perm items :=
+  ⟨rfl, List.mergeSort_perm items _⟩
+
+/-- so the read-back holds for ANY insertion order of the dict: whatever order `d` the items were inserted in, the order
+written is `sortR d`, a permutation of `d`, and `mp4_save_then_load_own_reader` applies to it; with pairwise different
+names the dictionary read back has exactly the bindings of `d` -/
+theorem mp4_read_back_any_insertion_order (d : List (RItem × List Nat)) (hn : (d.map fun x => x.1.name).Nodup) :
+    let written := (d.mergeSort fun a b => Mp4R.itemLe ⟨a.1.name, a.2, []⟩ ⟨b.1.name, b.2, []⟩).map (·.1)
+    written.Perm (d.map (·.1)) ∧
+      (written.foldl (fun its r => Mp4R.addMulti r.name r.val its) []).Perm (d.map fun x => (x.1.name, x.1.val)) := by
+  intro written
+  have hp : written.Perm (d.map (·.1)) := (List.mergeSort_perm d _).map _
+  refine ⟨hp, ?_⟩
+  have hn' : (written.map RItem.name).Nodup := by
+    have : (written.map RItem.name).Perm ((d.map (·.1)).map RItem.name) := hp.map _
+    have hn2 : ((d.map (·.1)).map RItem.name).Nodup := by rw [List.map_map]; exact hn
+    exact this.nodup_iff.mpr hn2
+  rw [mp4_read_back_dict written hn']
+  have h2 := hp.map (fun r => (r.name, r.val))
+  have e2 : (d.map (·.1)).map (fun r => (r.name, r.val)) = d.map fun x => (x.1.name, x.1.val) := by
+    rw [List.map_map]; rfl
+  rw [e2] at h2
+  exact h2
+
+/-- satisfiable: a title, a tempo and a track number on the example layout without a track -/
+example :
+    let ris : List RItem := [.text [0xa9, 0x6e, 0x61, 0x6d] [[104, 105]], .ints [0x74, 0x6d, 0x70, 0x6f] [(120, 2, [0, 120])],
+      .pairs [0x74, 0x72, 0x6b, 0x6e] true [(3, 9)]]
+    exLayout0.OK ∧ (∀ r ∈ ris, r.OK) ∧ wfList (exLayout0.saved (ris.map RItem.atom) .default).top ∧
+      exLayout0.tableSteps (ris.map RItem.atom) .default = [] ∧ depthList (exLayout0.saved (ris.map RItem.atom) .default).top ≤ 65 := by
+  refine ⟨by decide +kernel, ?_, by decide +kernel, by decide +kernel, by decide +kernel⟩
+  intro r hr
+  simp only [List.mem_cons, List.not_mem_nil, or_false] at hr
+  rcases hr with rfl | rfl | rfl
+  · refine ⟨Or.inr (by decide +kernel), ?_, ?_⟩
+    · intro x hx c hc
+      simp only [List.mem_singleton] at hx; subst hx
+      simp only [List.mem_cons, List.not_mem_nil, or_false] at hc
+      rcases hc with rfl | rfl <;> decide
+    · intro x hx
+      simp only [List.mem_singleton] at hx; subst hx
+      decide +kernel
+  · exact ⟨⟨2, by decide +kernel⟩, by intro v hv; simp only [List.mem_singleton] at hv; subst hv; decide +kernel⟩
+  · exact ⟨Or.inl (by decide +kernel), by intro p hp; simp only [List.mem_singleton] at hp; subst hp; decide⟩
 
 end Mutagen.C01
